@@ -499,7 +499,7 @@ def parse_sanitizer(report, gen_source):
 class Driver(object):
     """One running driver process; restarted transparently after a crash."""
 
-    def __init__(self, exe, module, gen_source, errlog, timeout=int(os.environ.get("VERIF_CDRV_TIMEOUT", "60"))):
+    def __init__(self, exe, module, gen_source, errlog, timeout=int(os.environ.get("VERIF_CDRV_TIMEOUT", "120"))):
         self.exe, self.module, self.gen_source, self.errlog, self.timeout = exe, module, gen_source, errlog, timeout
         self.p = None
         self.curtype = None
@@ -613,7 +613,14 @@ class Driver(object):
                     if o2 != owner and len(resps) == len(units[o2]):
                         results[o2] = resps
                 if owner == -1:
-                    raise
+                    # the request that selects the type did not come back (an overloaded machine): start the program
+                    # again and repeat these units; give up only when it happens a second time
+                    if getattr(self, '_select_retries', 0) >= 2:
+                        raise
+                    self._select_retries = getattr(self, '_select_retries', 0) + 1
+                    self.hangs = 0
+                    u = first
+                    continue
                 on_crash(owner, e)
                 u = owner + 1          # the program is gone; go on with the next unit
         return results
